@@ -54,7 +54,31 @@ class Gate:
             self.cv.notify_all()
 
 
+def process_state():
+    """interpreter state that belongs to the whole process: a parse must leave it as it found it, however
+    the parses of different instances overlap (otherwise one instance's parse changes the conditions
+    under which another one runs)"""
+    import gc, locale, os, signal, warnings
+    return (("recursionlimit", sys.getrecursionlimit()), ("switchinterval", sys.getswitchinterval()), ("cwd", os.getcwd()),
+            ("environ", hash(frozenset(os.environ.items()))), ("locale", locale.setlocale(locale.LC_ALL)),
+            ("warnings.filters", len(warnings.filters)), ("gc", gc.isenabled()), ("trace", sys.gettrace() is None),
+            ("profile", sys.getprofile() is None), ("sigint", repr(signal.getsignal(signal.SIGINT))), ("path", len(sys.path)),
+            ("stdout", id(sys.stdout)), ("excepthook", id(sys.excepthook)))
+
+
 def run_schedule(texts, schedule):
+    before = process_state()
+    r = _run_schedule(texts, schedule)
+    after = process_state()
+    if r is not None and after != before:
+        diff = [(a[0], a[1], b[1]) for a, b in zip(before, after) if a != b]
+        # put things back so that one report does not cascade, and report
+        sys.setrecursionlimit(dict(before)["recursionlimit"])
+        return [("PROCESS-STATE-CHANGED", diff)] + r[1:]
+    return r
+
+
+def _run_schedule(texts, schedule):
     """run len(texts) parsers under the given schedule (list of parser indices; when a parser is
     finished or the list is exhausted, remaining parsers run round-robin). Returns result keys."""
     from pycparser.c_parser import CParser
@@ -261,7 +285,9 @@ def run(ctx):
             if r is None:
                 ctx.violation("scheduler dead-lock (parsers did not reach the lexer gate)", {"kind": "schedule", "texts": [ta, tb], "schedule": list(bits)})
                 break
-            if r[0] != sa or r[1] != sb:
+            if isinstance(r[0], tuple) and r[0] and r[0][0] == "PROCESS-STATE-CHANGED":
+                ctx.violation("overlapping parses of two instances left process-wide interpreter state changed %r under schedule %r for %r / %r" % (r[0][1], bits, ta, tb), {"kind": "schedule", "texts": [ta, tb], "schedule": list(bits)})
+            elif r[0] != sa or r[1] != sb:
                 ctx.violation("interleaved parse differs from solo run under schedule %r for %r / %r" % (bits, ta, tb), {"kind": "schedule", "texts": [ta, tb], "schedule": list(bits)})
     # random schedules, 2-4 longer programs with clashing names
     rng = ctx.rng("sched")
@@ -275,6 +301,8 @@ def run(ctx):
         n += 1
         if r is None:
             ctx.violation("scheduler dead-lock", {"kind": "schedule", "texts": texts, "schedule": sched})
+        elif isinstance(r[0], tuple) and r[0] and r[0][0] == "PROCESS-STATE-CHANGED":
+            ctx.violation("overlapping parses left process-wide interpreter state changed %r (random schedule) for %r" % (r[0][1], [t[:40] for t in texts]), {"kind": "schedule", "texts": texts, "schedule": sched})
         elif r != want:
             ctx.violation("interleaved parses differ from solo runs (random schedule) for %r" % [t[:40] for t in texts], {"kind": "schedule", "texts": texts, "schedule": sched})
     # free-running threads
@@ -289,7 +317,7 @@ def run(ctx):
         n += 1
         for order, why in generator_orders(src):
             ctx.violation("instances of different generator classes influence each other: order %r: %s" % (order, why), {"kind": "genorder", "src": src})
-    ctx.rule("all schedules of length 6 (thorough 9) over two parsers at lexer-call granularity (the start of each parse - parser construction and the resets at the top of parse() - being a step of its own) for pairs of short clashing-name inputs (scheduling lexer injected through lexer=, strict hand-off), random schedules for 2-4 longer programs, and free-running threads (4 parsers + generators, switch interval 1e-6 s); generator / visitor instances of different classes (CGenerator, two subclasses overriding visit_ID / visit_Constant, NodeVisitor subclasses) used in 7 orders in one process vs each alone in its own process; every result compared with the solo run, re-dumped after all parsers have finished (a returned AST must not change afterwards) and checked to share no node object with another parser's result")
+    ctx.rule("all schedules of length 6 (thorough 9) over two parsers at lexer-call granularity (the start of each parse - parser construction and the resets at the top of parse() - being a step of its own) for pairs of short clashing-name inputs (scheduling lexer injected through lexer=, strict hand-off), random schedules for 2-4 longer programs, and free-running threads (4 parsers + generators, switch interval 1e-6 s); generator / visitor instances of different classes (CGenerator, two subclasses overriding visit_ID / visit_Constant, NodeVisitor subclasses) used in 7 orders in one process vs each alone in its own process; every result compared with the solo run, process-wide interpreter state (recursion limit, switch interval, cwd, environment, locale, warning filters, trace / profile hooks, ...) compared before and after every scheduled run, re-dumped after all parsers have finished (a returned AST must not change afterwards) and checked to share no node object with another parser's result")
     ctx.count(n, nontrivial_n=n)
     ctx.sample({"kind": "schedule", "texts": SHORT[:2], "schedule": [0, 1, 1, 0, 0, 1]})
 
